@@ -18,6 +18,14 @@ from props import elem_common as ec
 
 F = Fraction
 TAUS = [F(1, 4), F(1, 2), F(1), F(3, 2), F(2), F(3), F(5)]
+FTAUS = [F(1, 10), F(2, 10), F(3, 10), F(7, 10), F(11, 10), F(23, 10), F(1, 3)]     # not binary fractions
+
+
+def _exact_or_float(case):
+    """how case numbers become Python floats: exactly (dyadic cases) or by rounding (float-mode cases)"""
+    if case.get("float"):
+        return lambda x: float(cf.frac(x))
+    return ec.T
 MAX_STEPS = 600
 
 
@@ -87,8 +95,10 @@ class C19(Prop):
 
     # ---- generation -----------------------------------------------------------------------------
     def gen_case(self, rng, tier):
-        t0 = rng.choice([F(0), F(0), F(1, 2), F(1), F(3)])
-        tmo = rng.choice(TAUS)
+        fl = rng.random() < 0.12          # non-dyadic instants: monitor only (float rounding is outside the model)
+        taus = FTAUS if fl else TAUS
+        t0 = rng.choice([F(0), F(1, 10), F(7, 10), F(33, 10)] if fl else [F(0), F(0), F(1, 2), F(1), F(3)])
+        tmo = rng.choice(taus)
         auto = rng.random() < 0.5
         ak = rng.choice(["none", "scalar", "scalar", "list", "list", "tuple"])
         if ak == "none":
@@ -100,7 +110,7 @@ class C19(Prop):
         kwargs = {"k": rng.randint(0, 9)} if rng.random() < 0.2 else None
 
         def rand_op():
-            return ["stop"] if rng.random() < 0.22 else ["restart", cf.qjson(rng.choice(TAUS))]
+            return ["stop"] if rng.random() < 0.22 else ["restart", cf.qjson(rng.choice(taus))]
 
         # callback script: calls made at the k-th invocation
         cb = []
@@ -128,20 +138,21 @@ class C19(Prop):
                 e, period = t0 + F(op[1]), F(op[1])
         t = t0
         timeline = []
+        steps = [F(1, 10), F(3, 10), F(7, 10), F(11, 10)] if fl else [F(1, 4), F(1, 2), F(1), F(3, 2)]
         for _ in range(nops):
             style = rng.random()
             if e is None or stopped:
-                cand = t + rng.choice([F(0), F(1, 4), F(1, 2), F(1), F(2)])
+                cand = t + rng.choice([F(0)] + steps)
             elif style < 0.4:
                 cand = e
             elif style < 0.6:
-                cand = e - rng.choice([F(1, 4), F(1, 2), F(1)])
+                cand = e - rng.choice(steps[:3])
             elif style < 0.75:
-                cand = e + rng.choice([F(1, 4), F(1, 2), F(1)])
+                cand = e + rng.choice(steps[:3])
             elif style < 0.88:
                 cand = t
             else:
-                cand = t + rng.choice([F(1, 4), F(1, 2), F(1), F(3, 2)])
+                cand = t + rng.choice(steps)
             cand = max(cand, t)
             # the timer fires (by prediction) at every expiry strictly before cand, and maybe at cand
             while e is not None and not stopped and (e < cand or (e == cand and rng.random() < 0.5)) and nf < 40:
@@ -169,7 +180,7 @@ class C19(Prop):
             else:
                 d["ops"].append([cf.qjson(tt), [op]])
         horizon = max([t0 + 4 * tmo, t + 6] + [t0 + 2])
-        return {"kind": "timer", "t0": cf.qjson(t0), "timeout": cf.qjson(tmo), "auto": auto, "args": args, "kwargs": kwargs,
+        return {"kind": "timer", "float": fl, "t0": cf.qjson(t0), "timeout": cf.qjson(tmo), "auto": auto, "args": args, "kwargs": kwargs,
                 "pre": rng.random() < 0.5, "immediate": immediate, "drivers": drivers, "cb": cb,
                 "horizon": cf.qjson(min(horizon, t0 + 40))}
 
@@ -178,7 +189,7 @@ class C19(Prop):
         from onl.sim import Environment
         from onl.sim.events import Process
         from onl.utils.timer import Timer
-        T = ec.T
+        T = _exact_or_float(case)
         t0 = T(case["t0"])
         env = Environment(initial_time=t0)
         log = []
@@ -368,6 +379,8 @@ class C19(Prop):
         return f"(timer0 fixed {cf.q(case['t0'])} {cf.q(case['timeout'])} {cf.b(case['auto'])} {_args_coq(case['args'])})"
 
     def agree_term(self, case, obs):
+        if case.get("float"):
+            return None        # binary64 rounding is outside the model (Q); these cases are judged by the monitor only
         if obs["raised"] or obs.get("capped"):
             return "false"
         if any(isinstance(x, bool) or not isinstance(x, int) for x in _args_expected(case["args"])):
@@ -386,7 +399,10 @@ class C19(Prop):
         if obs["raised"]:
             return [f"timer-raises: {obs['raised']} escaped (no history of stop/restart calls may raise)"]
         msgs = []
-        t0, tmo = F(case["t0"]), F(case["timeout"])
+        # dyadic cases: exact rationals.  float-mode cases: the same binary64 operations the code performs
+        # (start_time + timeout, env.now + self.timeout); logged instants are exact images of the floats
+        N = (lambda x: float(cf.frac(x))) if case.get("float") else F
+        t0, tmo = N(case["t0"]), N(case["timeout"])
         auto = bool(case["auto"])
         want_args = _args_expected(case["args"])
         want_kw = case.get("kwargs") or {}
@@ -406,7 +422,7 @@ class C19(Prop):
         for en in obs["log"]:
             k = en[0]
             if k == "adv":
-                t = F(en[1])
+                t = N(en[1])
                 if t < now:
                     msgs.append("timer-time-decreases: clock went back")
                 missed(t)
@@ -417,9 +433,9 @@ class C19(Prop):
                     stopped = True
                 elif not stopped:
                     if e is not None and not maybe:
-                        e, period = now + F(op[1]), F(op[1])
+                        e, period = now + N(op[1]), N(op[1])
                     else:
-                        e, period, maybe = now + F(op[1]), F(op[1]), True
+                        e, period, maybe = now + N(op[1]), N(op[1]), True
             elif k in ("stray-fire", "stray-step"):
                 msgs.append(f"timer-fires-outside-its-process: {en[1]}")
             elif k == "step":
@@ -427,7 +443,7 @@ class C19(Prop):
                 if en[1][0] != "tmo" and fires:
                     msgs.append(f"timer-fires-outside-timeout: callback ran while the kernel processed {en[1]}")
                 for j, f in enumerate(fires):
-                    ft = F(f["t"])
+                    ft = N(f["t"])
                     if ft != now:
                         msgs.append(f"timer-clock: callback saw env.now={ft} but the kernel is at {now}")
                     if stopped:
@@ -448,11 +464,11 @@ class C19(Prop):
                         if c[0] == "stop":
                             stopped = True
                         else:
-                            e, period = now + F(c[1]), F(c[1])
+                            e, period = now + N(c[1]), N(c[1])
         if obs.get("capped"):
             msgs.append("timer-livelock: the timer kept the kernel busy for %d steps without reaching the horizon" % obs["steps"])
         else:
-            missed(F(obs["end_time"]) if obs["end_time"] is not None else F(10 ** 9))
+            missed(N(obs["end_time"]) if obs["end_time"] is not None else N(10 ** 9))
         out, seen = [], set()
         for m in msgs:
             s = m.split(":")[0]
@@ -548,7 +564,8 @@ class C19(Prop):
             yield {**case, "t0": "0/1"}
 
     def describe(self, case, obs):
-        keys = ["timer", "timer:" + ("auto-restart" if case["auto"] else "one-shot"), "timer:args=" + case["args"]["kind"],
+        keys = ["timer", "timer:float-mode(monitor only)" if case.get("float") else "timer:dyadic(model+monitor)",
+                "timer:" + ("auto-restart" if case["auto"] else "one-shot"), "timer:args=" + case["args"]["kind"],
                 "timer:drivers=%d" % len(case["drivers"])]
         if case["pre"]:
             keys.append("timer:drivers-created-before-timer")
